@@ -118,7 +118,8 @@ def rule_costs_and_replay(ctx, rep, config="c-lib"):
     sts = [s for s in yp.all_insts() if s.op == "store" and resolve_addr(yp, s.ops[1]).root == ("g", "anode_cost")]
     cs = sorted(set(const_int(s.ops[0]) for s in sts if const_int(s.ops[0]) is not None))
     noncs = [s for s in sts if const_int(s.ops[0]) is None]
-    ok = cs == [1] and all(yp.inst(strip_int_casts(yp, s.ops[0])) is not None and yp.inst(strip_int_casts(yp, s.ops[0])).op == "load" for s in noncs) and len(noncs) >= 1
+    form_b = (cs == [] and len(noncs) >= 1)    # the cost travels as the value of its nonterminal; judged below with the bison tables
+    ok = form_b or (cs == [1] and all(yp.inst(strip_int_casts(yp, s.ops[0])) is not None and yp.inst(strip_int_casts(yp, s.ops[0])).op == "load" for s in noncs) and len(noncs) >= 1)
     if ok:
         rep.ok("C11-actions", "yyparse/anode_cost", sample={"default": 1, "explicit_from_token": len(noncs)})
     else:
@@ -147,11 +148,34 @@ def rule_costs_and_replay(ctx, rep, config="c-lib"):
             preds = [x for x in yp.bmap[b].preds if yp.reachable(x)]
             b = preds[0] if len(preds) == 1 else None
         return case_of.get(b, [None])[0] if b else None
+    if form_b:
+        # every alternative of the translation nonterminal that has the cost in its right-hand side ('#' IDENT cost ...: three symbols or more) takes it over
+        rs = [rule_no(s) for s in noncs]
+        lhs = set(yyr1[r] for r in rs if r is not None and r < len(yyr1))
+        if None in rs or len(lhs) != 1:
+            raise AnalysisBroken("C11-actions: the actions that assign anode_cost are not alternatives of one nonterminal (rules %s)" % rs)
+        need = [r for r in range(len(yyr1)) if yyr1[r] == list(lhs)[0] and yyr2[r] >= 3]
+        missing = [r for r in need if r not in rs]
+        # the default: an empty alternative whose value is the constant 1, with a one-token sibling
+        yv = [s_ for s_ in yp.all_insts() if s_.op == "store" and resolve_addr(yp, s_.ops[1]).root[0] == "alloca"
+              and (yp.insts[resolve_addr(yp, s_.ops[1]).root[1]].d.get("var") or "").endswith("yyval")]
+        dflt = [rule_no(s_) for s_ in yv if const_int(s_.ops[0]) == 1]
+        dflt = [r for r in dflt if r is not None and yyr2[r] == 0 and any(yyr1[q] == yyr1[r] and yyr2[q] == 1 for q in range(len(yyr1)))]
+        if missing:
+            rep.violation("C11-actions", "yyparse/cost-alternatives", "the cost of an abstract node is taken over by the actions of rules %s but not by the sibling "
+                          "alternative(s) %s of the same nonterminal: `# name cost' written that way keeps the cost of the abstract node read before" % (sorted(rs), missing),
+                          where=noncs[0].where())
+        elif not dflt:
+            rep.violation("C11-actions", "yyparse/cost-alternatives", "no empty alternative yields the default cost 1", where=noncs[0].where())
+        else:
+            rep.ok("C11-actions", "yyparse/cost-alternatives", sample={"taken_over_in_rules": sorted(rs), "default_rule": dflt[0]})
     c1 = [rule_no(s) for s in sts if const_int(s.ops[0]) == 1]
     c2 = [rule_no(s) for s in noncs]
-    okalt = len(c1) == 1 and len(c2) == 1 and None not in (c1[0], c2[0]) and c1[0] < len(yyr1) and c2[0] < len(yyr1) and \
+    okalt = form_b or len(c1) == 1 and len(c2) == 1 and None not in (c1[0], c2[0]) and c1[0] < len(yyr1) and c2[0] < len(yyr1) and \
         yyr1[c1[0]] == yyr1[c2[0]] and yyr2[c1[0]] == 0 and yyr2[c2[0]] == 1
-    if okalt:
+    if form_b:
+        pass
+    elif okalt:
         rep.ok("C11-actions", "yyparse/cost-alternatives", sample={"default_rule": c1[0], "explicit_rule": c2[0], "lhs_symbol": yyr1[c1[0]]})
     else:
         rep.violation("C11-actions", "yyparse/cost-alternatives", "the default cost 1 and the explicit cost are not assigned by the empty and the NUMBER alternative of one "
@@ -214,6 +238,13 @@ def rule_declaration_merge(ctx, rep, config="c-lib"):
             v = f.inst(strip_int_casts(f, s_.ops[0]))
             if v is not None and v.op == "load" and resolve_addr(f, v.ops[0]).last_field() == "sterm.code":
                 merges.append((s_, v))
+        whole = [i for i in f.calls() if (i.callee or "").startswith("llvm.memcpy") and i not in copies and copies
+                 and const_int(i.args[2]) is not None and const_int(i.args[2]) == const_int(copies[0].args[2])]
+        if len(copies) == 1 and not merges and len(whole) == 1:
+            rep.violation("C11-merge", "set_sgrammar/merge-touches-code-only", "a repeated declaration is merged by copying the whole element over the kept one: the kept "
+                          "declaration also loses its order number (the position of the first declaration), so terminals without explicit codes get their implicit "
+                          "codes 256, 257, ... in another order than documented", where=whole[0].where(), witness=[whole[0].where()])
+            return
         if len(copies) != 1 or len(merges) != 1:
             raise AnalysisBroken("C11-merge: the merge loop of set_sgrammar is not of the known shape (%d element copies, %d code merges)" % (len(copies), len(merges)))
         cp = copies[0]
@@ -315,3 +346,79 @@ def rule_lexer_discipline(ctx, rep, config="c-lib"):
                                                                                                                "no accumulation found")), where=w.where(), witness=[w.where()])
     else:
         rep.ok("C11-lexer", "yylex/numbers-base-10", sample={"accumulations": len(forms), "conversions": len(conv)})
+
+
+
+def rule_line_count(ctx, rep, config="c-lib"):
+    rep.rule("C11-ln", "the scanner counts a line only for a newline it consumes: every `ln++' is controlled by c == '\\\\n' for a character read through the cursor curr_ch "
+                       "itself, or through a local look-ahead pointer that is stored back into curr_ch on every path from the increment to the return (a newline seen "
+                       "by a look-ahead that is then dropped is scanned and counted again: the line of `description syntax error on ln N' drifts)")
+    from .r5 import _controlling_conditions
+    from .r14 import path_exists
+    p = ctx.prog(config)
+    f = p.fn("yaep_yylex")
+    rep.cover(p, [f.name])
+    n = 0
+    rets = [i for i in f.all_insts() if i.op == "ret"]
+    for s_ in f.all_insts():
+        if s_.op != "store" or resolve_addr(f, s_.ops[1]).root != ("g", "ln") or resolve_addr(f, s_.ops[1]).steps:
+            continue
+        v = f.inst(strip_int_casts(f, s_.ops[0]))
+        if v is None or v.op != "add" or const_int(v.ops[1]) != 1:
+            continue
+        n += 1
+        key = "yylex/line-counted-for-consumed-newline#%d" % n
+        ptr = None
+        for (c, pol) in _controlling_conditions(f, s_.block.name):
+            if c.d["pred"] == "eq" and pol and const_int(c.ops[1]) == 10:
+                ch = f.inst(strip_int_casts(f, c.ops[0]))
+                while ch is not None and ch.op == "phi":
+                    # c = *p++ merged over the loop: any incoming that is a load
+                    nxt = [f.inst(strip_int_casts(f, v_)) for (v_, _) in ch.d["incoming"]]
+                    nxt = [x for x in nxt if x is not None and x.op == "load"]
+                    ch = nxt[0] if nxt else None
+                if ch is not None and ch.op == "load":
+                    ptr = ch.ops[0]
+        if ptr is None:
+            # switch (c) { case '\n': ln++; ...
+            for b in f.rblocks():
+                t = b.term
+                if t is None or t.op != "switch" or not f.dominates(b.name, s_.block.name):
+                    continue
+                tg10 = [tgt for (v_, tgt) in t.d["cases"] if v_ == 10]
+                others = [tgt for (v_, tgt) in t.d["cases"] if v_ != 10] + [t.d.get("default")]
+                if tg10 and tg10[0] == s_.block.name and tg10[0] not in others and [x.name for x in f.rblocks() if s_.block.name in x.succs] == [b.name]:
+                    ch = f.inst(strip_int_casts(f, t.d["cond"]))
+                    if ch is not None and ch.op == "load":
+                        ptr = ch.ops[0]
+        if ptr is None:
+            rep.violation("C11-ln", key, "the line counter is incremented without a test that the character read is a newline", where=s_.where(), witness=[s_.where()])
+            continue
+        pi = f.inst(strip_casts(f, ptr))
+        lp = loaded_from(f, ptr)
+        if lp is not None and lp.root == ("g", "curr_ch") and not lp.steps:
+            rep.ok("C11-ln", key, sample={"increment": s_.where(), "read_through": "curr_ch"})
+            continue
+        # a local cursor: the family of values connected by phi / gep
+        fam, work = set(), [pi]
+        while work:
+            x = work.pop()
+            if x is None or x.id in fam:
+                continue
+            fam.add(x.id)
+            if x.op == "phi":
+                work.extend(f.inst(strip_casts(f, v_)) for (v_, _) in x.d["incoming"])
+            elif x.op == "getelementptr":
+                work.append(f.inst(strip_casts(f, x.d["base"])))
+            for u in f.uses().get(x.id, []):
+                if u.op in ("phi", "getelementptr", "bitcast"):
+                    work.append(u)
+        commits = [c_ for c_ in f.all_insts() if c_.op == "store" and resolve_addr(f, c_.ops[1]).root == ("g", "curr_ch") and not resolve_addr(f, c_.ops[1]).steps
+                   and strip_casts(f, c_.ops[0]).get("v") in fam]
+        leak = [r for r in rets if path_exists(f, s_, r, commits)]
+        if leak:
+            rep.violation("C11-ln", key, "the newline that increments the line counter is read through a look-ahead pointer that is not stored back into curr_ch on "
+                          "every path to the return: the same newline is scanned and counted again by the next call", where=s_.where(), witness=[s_.where(), leak[0].where()])
+        else:
+            rep.ok("C11-ln", key, sample={"increment": s_.where(), "read_through": "a local cursor committed on every path"})
+    rep.floor("C11-ln", "increments of the line counter", n, 2)
